@@ -2119,6 +2119,16 @@ mod e2e {
                 z.names.insert(rel_name(&apex, &[b"b", b"a"]), [T_A].into_iter().collect());
                 z.names.insert(rel_name(&apex, &[b"b", b"a", b"b"]), [T_A].into_iter().collect());
             }
+            if zi == 2 {
+                // fixed shape in every tier: a wildcard that is the ONLY name below an empty non-terminal
+                // (*.a.z.) and below a two-level one (*.a.b.z. under the ENTs a.b.z. and b.z.): the ENTs exist only
+                // because of the wildcard owner and must get NSEC3 records all the same
+                z.opt_out = false;
+                z.names.clear();
+                z.names.insert(lbls(&apex), apex_types());
+                z.names.insert(rel_name(&apex, &[b"*", b"a"]), [T_A].into_iter().collect());
+                z.names.insert(rel_name(&apex, &[b"*", b"a", b"b"]), [T_A].into_iter().collect());
+            }
             let Some(srv) = build(&z) else {
                 rec.stat("e2e.zone-build-failed");
                 continue;
@@ -2306,8 +2316,7 @@ mod e2e {
     //        verify_nsec3, at the top level and in the nested DS lookup for an insecure child zone
     //   hl config <anchors-wrong|anchors-default|cache1|ttl|depth0>   every other configurable field
     //   hl inject <forged+sibling|forged-alone|genuine-only>   an UNSIGNED NSEC3 next to a signed RRset of the same owner
-
-    pub const CL_INJECT: &str = "unsigned-nsec3-used-because-sibling-rrset-of-same-owner-is-secure";
+    //        (must be rejected; repaired in /repo cc13292: the record's own proof decides)
 
     fn classify(r: &Result<DnsResponse, NetError>) -> String {
         match r {
@@ -2547,7 +2556,7 @@ mod e2e {
             &got,
             ok,
             format!("hostile upstream answers a.z. A (exists) with NXDOMAIN: SOA, the signed apex NSEC3 and an UNSIGNED NSEC3 <L>.z. -> ff.. covering a.z. and *.z. ({variant}); DnssecDnsHandle::send gives {got}, expected an error: an NSEC3 record without a valid signature of its own must not take part in a proof"),
-            if variant == "forged+sibling" { CL_INJECT } else { "" },
+            "",
         );
         Some(())
     }
